@@ -17,6 +17,7 @@ import (
 
 	"github.com/postalsys/muti-metroo/internal/config"
 	"github.com/postalsys/muti-metroo/internal/protocol"
+	"github.com/postalsys/muti-metroo/internal/verifhook"
 	"github.com/postalsys/muti-metroo/internal/verifkit"
 )
 
@@ -44,6 +45,45 @@ func mkStartUDPEcho() (*mkUDPEcho, error) {
 			e.got++
 			e.mu.Unlock()
 			pc.WriteToUDP(buf[:n], src)
+		}
+	}()
+	return e, nil
+}
+
+// mkStartUDPChatty: a UDP server that, once a source has sent it a datagram, keeps sending that
+// source canary-carrying datagrams every few ms for `dur` (a server that is still talking when the
+// client goes away).
+func mkStartUDPChatty(dur time.Duration) (*mkUDPEcho, error) {
+	pc, err := net.ListenUDP("udp4", &net.UDPAddr{IP: net.IPv4zero})
+	if err != nil {
+		return nil, err
+	}
+	e := &mkUDPEcho{pc: pc, port: pc.LocalAddr().(*net.UDPAddr).Port}
+	go func() {
+		buf := make([]byte, 65535)
+		seen := map[string]bool{}
+		for {
+			_, src, err := pc.ReadFromUDP(buf)
+			if err != nil {
+				return
+			}
+			e.mu.Lock()
+			e.got++
+			e.mu.Unlock()
+			if seen[src.String()] {
+				continue
+			}
+			seen[src.String()] = true
+			go func(src *net.UDPAddr) {
+				end := time.Now().Add(dur)
+				for i := 0; time.Now().Before(end); i++ {
+					msg := []byte(fmt.Sprintf("%s late reply %06d from the server %s%s", mkCanary, i, mkUDPTag, mkCanary))
+					if _, err := pc.WriteToUDP(msg, src); err != nil {
+						return
+					}
+					time.Sleep(3 * time.Millisecond)
+				}
+			}(src)
 		}
 	}()
 	return e, nil
@@ -506,6 +546,68 @@ func TestVerif_C04_UDP(t *testing.T) {
 		}
 		time.Sleep(400 * time.Millisecond) // let delayed opens and queued datagrams drain
 		delayOpens.Store(false)
+		// late replies: the destination is still sending when the association goes away (client
+		// drops its control connection). (a) free-running: replies keep arriving at the exit for
+		// more than a second after the close. (b) synchronised through the hook between the exit's
+		// socket read and the seal: one reply has been read when the association is closed, and is
+		// sealed (or not) only afterwards. Nothing of it may reach a link in the clear.
+		{
+			chatty, cerr := mkStartUDPChatty(1500 * time.Millisecond)
+			if cerr == nil {
+				exitA := m.nodes[tp.Exit].a
+				var hookArmed atomic.Bool
+				reached := make(chan struct{}, 8)
+				release := make(chan struct{})
+				var releaseOnce sync.Once
+				restore := verifhook.Set("udp.read_before_seal", func(args ...any) {
+					if hookArmed.CompareAndSwap(true, false) {
+						reached <- struct{}{}
+						select {
+						case <-release:
+						case <-time.After(1500 * time.Millisecond):
+						}
+					}
+				})
+				for k := 0; k < r.N(4, 12); k++ {
+					addr := m.nodes[tp.Ingresses[0]].a.SOCKS5Address()
+					c, cerr := mkSocksUDPAssociate(addr.String(), uint64(ci)<<16|0x9000|uint64(k))
+					if cerr != nil {
+						continue
+					}
+					synced := k%2 == 1
+					release = make(chan struct{})
+					releaseOnce = sync.Once{}
+					if synced {
+						hookArmed.Store(true)
+					}
+					c.send(net.IPv4(127, 1, 10, byte(1+k)), chatty.port, 0, 100, rng)
+					if synced {
+						select {
+						case <-reached: // the exit holds a reply it has read and not yet sealed
+							c.close()
+							for i := 0; i < 200 && exitA.udpHandler != nil && exitA.udpHandler.ActiveCount() > 0; i++ {
+								time.Sleep(5 * time.Millisecond)
+							}
+							if exitA.udpHandler != nil && exitA.udpHandler.ActiveCount() == 0 {
+								r.Add("udp_reply_held_between_read_and_seal_across_close", 1)
+							}
+							releaseOnce.Do(func() { close(release) })
+						case <-time.After(3 * time.Second):
+							hookArmed.Store(false)
+							c.close()
+						}
+					} else {
+						time.Sleep(time.Duration(20+rng.Intn(80)) * time.Millisecond)
+						c.close()
+						r.Add("udp_closed_while_server_still_sending", 1)
+					}
+					time.Sleep(150 * time.Millisecond)
+				}
+				time.Sleep(1200 * time.Millisecond) // the chatty server's tail
+				restore()
+				chatty.pc.Close()
+			}
+		}
 		mu.Lock()
 		for _, l := range leaks {
 			r.Violation("plaintext-on-link:udp-datagram", "scan", ci, fmt.Sprintf("topology %s: a UDP_DATAGRAM frame on an inter-agent link carries application plaintext: %s", tp.Name, l), out)
